@@ -932,7 +932,7 @@ def mods_case(draw):
     blocks = []
     shared = draw(st.permutations(ATOMNAMES))[:3]          # names shared between blocks
     for name in names:
-        nat = draw(st.integers(1, 4))
+        nat = draw(st.sampled_from([1, 2, 2, 3, 3, 4]))
         pool = list(shared) + [a for a in ATOMNAMES if a not in shared]
         blocks.append(draw(block(name, nrexcl, "ff", names=pool[:nat])))
     mods = []
@@ -956,6 +956,26 @@ def mods_case(draw):
     for _ in range(draw(st.integers(0, 2))):
         links.append(draw(link(blocks, [], allow_replace=False, allow_atype_sel=False,
                                prefer=sorted({n["resname"] for n in graph["nodes"]}))))
+    used_names = {n["resname"] for n in graph["nodes"]}
+    x, y = shared[0], shared[1]
+    if graph["kind"] == "linear" and draw(st.booleans()) \
+            and all(len(b["atoms"]) >= 2 for b in blocks if b["name"] in used_names) \
+            and not any(model_split_key(at["key"])[1] == x for l in links for at in l["atoms"]):
+        # a link that renames an atom (the modifications select their atoms by the name the atom has after the
+        # links were applied). The renamed atom is referred to by no other link position, so the order in which
+        # the residue pairs are visited does not matter.
+        links.append({"resname": "|".join(sorted(used_names)),
+                      "atoms": [{"key": x, "attrs": {"replace": {"atomname": x + "r"}}}, {"key": "+" + y, "attrs": {}}],
+                      "inter": [{"sec": "bonds", "atoms": [x, "+" + y], "params": ["1", _param(draw), _param(draw)],
+                                 "meta": {}}],
+                      "edges": [], "non_edges": [], "patterns": []})
+        # the terminal modifications name the atom by its old name, with a replacement of their own
+        for mod in mods[:2]:
+            hit = [a for a in mod["atoms"] if a["name"] == x]
+            if not hit and not mod["inter"]:
+                mod["atoms"].append({"name": x, "replace": {"atype": "Q1"}})
+            elif hit and not hit[0]["replace"]:
+                hit[0]["replace"] = {"atype": "Q5"}
     files = [{"kind": "ff", "blocks": list(range(len(blocks))), "links": list(range(len(links))),
               "mods": list(range(len(mods)))}]
     mods_cli = []
